@@ -89,13 +89,15 @@ func (d *verifC12_dir) RemoveAll(name path.Component) error {
 }
 
 type verifC12_base struct {
-	dir   *verifC12_dir
-	calls int
+	dir    *verifC12_dir
+	calls  int
+	failed bool // ghost: the injected fault was the base creator's own failure
 }
 
 func (b *verifC12_base) GetBuildDirectory(ctx context.Context, d *digest.Digest) (BuildDirectory, *path.Trace, error) {
 	b.calls++
 	if err := verifC12_err("base GetBuildDirectory fails"); err != nil {
+		b.failed = true
 		return nil, nil, err
 	}
 	return b.dir, nil, nil
@@ -174,8 +176,9 @@ func verifHarness_C12_SharedBuildDirectoryCreator() {
 	bd, _, err := dc.GetBuildDirectory(verifC12Ctx{}, dg)
 	if err != nil {
 		rt.Assert(bd == nil, "no directory on failure")
-		if base.calls == 1 && len(log) == 0 && root.closed == 0 {
+		if base.failed {
 			rt.Cover("shared:base-failed")
+			rt.Assert(len(log) == 0 && root.closed == 0, "nothing is touched when the underlying creator fails")
 			return
 		}
 		rt.Assert(root.closed == 1, "parent directory closed when creating or entering the child fails")
